@@ -15,8 +15,8 @@ for d in sorted(glob.glob(os.path.join(ROOT, 'seeded', '*'))):
         if r.get('exit', 0) != 0:
             kinds = sorted({(v.get('kind') or '?') + ('' if not v.get('no_input') else ' (no-failing-input-found)') + (' @' + v['config'] if v.get('config') else '') for v in r.get('first', [])})
             caught.append('%s: %s' % (pid, '; '.join(kinds)[:160]))
-    rows.append((os.path.basename(d), ', '.join(f.replace('src/', '') for f in files), m.get('summary', ''), m.get('needs_to_manifest', ''),
+    rows.append((os.path.basename(d), m.get('summary', ''), m.get('needs_to_manifest', ''),
                  '<br>'.join(caught) if caught else '**missed**' + (' — ' + m['miss_note'] if m.get('miss_note') else '')))
-print('| seed | file(s) | change | needs, to manifest | caught by |')
-print('|------|---------|--------|--------------------|-----------|')
+print('| seed | change | needs, to manifest | caught by (quick tier) |')
+print('|------|--------|--------------------|------------------------|')
 for r in rows: print('| ' + ' | '.join(x.replace('|', '\\|').replace('\n', ' ') for x in r) + ' |')
